@@ -20,6 +20,7 @@ def main():
             print(explain(**rec['args']))
         except Exception as e:
             print('explain failed: %r' % e)
+    print('REPLAY-VERDICT %s' % ('REPRODUCED' if kind == 'violation' else 'NOT-REPRODUCED'))
     return 1 if kind == 'violation' else 0
 
 
